@@ -49,6 +49,8 @@ KidAt(kind, j) ==
     [] kind = "spread"  -> ChSpread(Call("gs" \o N(j), Arr(<<Num(j)>>)))
     [] kind = "spreadarr" -> ChSpread(ArrLit(<<Call("gsa" \o N(j), Num(j)), Member("oc", "y" \o N(j), Num(40 + j))>>))
     [] kind = "objlit"  -> ChExpr(ObjLit(<< <<"default", Arrow(Lit(Num(1)))>>, <<"bar", Call("gob" \o N(j), FnR("ob" \o N(j), Num(2)))>> >>))
+    [] kind = "callfn"  -> ChExpr(Call("gcf" \o N(j), FnR("cf" \o N(j), Arr(<<Num(j)>>))))       \* a call whose value is a slot function
+    [] kind = "identfn" -> ChExpr(Ident("cif" \o N(j), FALSE, FnR("if" \o N(j), Arr(<<Num(j)>>))))
     [] kind = "elem"    -> ChElem(Inner("e" \o N(j)))
     [] kind = "comp"    -> ChElem(InnerComp("k" \o N(j)))
     [] kind = "direlem" -> ChElem(Elem(TagHtml("span"), <<Dir("kebab", <<"show">>, "", <<>>, AvExpr(Call("dsv" \o N(j), Bool(TRUE))))>>,
@@ -113,7 +115,7 @@ VSlotRaw == SetToSeq({[tag |-> h, attrs |-> as, kids |-> ks, oc |-> oc] :
                         h \in {TagComp("Foo", TRUE, Opq("vFoo")), TagComp("Bar", FALSE, Undef)},
                         as \in {<<AttrAt("vslots", 1, "")>>, <<AttrAt("vslotso", 1, "")>>, <<AttrAt("call", 1, ""), AttrAt("vslots", 2, "")>>,
                                  <<AttrAt("vslotso", 1, ""), AttrAt("call", 2, "")>>},
-                        ks \in {<<>>} \cup {<<KidAt(k, 1)>> : k \in {"objlit", "call", "trivial", "text", "elem", "arr"}}
+                        ks \in {<<>>} \cup {<<KidAt(k, 1)>> : k \in {"objlit", "call", "trivial", "text", "elem", "arr", "callfn", "identfn"}}
                                  \cup {<<KidAt("call", 1), KidAt("text", 2)>>},
                         oc \in OptCombos})
 RawSeq == SelectSeq([n \in 1..(NA + NB) |-> IF n <= NA THEN RawA(n - 1) ELSE RawB(n - NA - 1)],
